@@ -20,6 +20,7 @@ package kvql
 //@ iface (p Plan) Batch(ctx *ExecuteCtx) (rows []KVPair, err error)
 //@   requires nofail: !failed
 //@   requires wfc: wfCursor(p)
+//@   requires[C05] nokeys: ctx != nil && (ctx.EnableCache ==> (forall q B :: !has(ctx.FieldChunkKeyCaches, q))) && wfCtxB(ctx) && wfRefs()
 //@   assigns pcur(p), nops, failed, lastErr, ctx.Hit, mapof(ctx.FieldCaches), mapof(ctx.FieldChunkKeyCaches), mapof(ctx.FieldChunkCaches)
 //@   ensures wfCursor(p)
 //@   ensures err == nil ==> pcur(p) == old(pcur(p)) + len(rows) && fresh(rows) && rowsAre(rows, p, old(pcur(p)))
